@@ -670,3 +670,181 @@ Definition required_args (Mod Obj : Type) (W : pyworld Mod Obj) (c : option Obj)
 (* the introspection record the get_args() models take, made of the functions above *)
 Definition introspect_of (Mod Obj : Type) (W : pyworld Mod Obj) : introspect Obj :=
   mk_introspect (get_class W) (required_args W).
+
+(* ====================================================================================================================
+   The argparse option tables: what `get_parser()` of each wrapper declares, and what that means for the namespace
+   `parser.parse_args()` yields - the record the get_args() / main() models above take for granted.
+
+   The tables themselves are NOT written here: harness/argparse_reader.py reads them from /repo on every run
+   (Generated/SrcParser_<command>.v, `src_parser_<command> : list argopt`, one record per parser.add_argument call, the
+   options of log_config.add_logging_args included).  Here: the record type, argparse's reading of one declaration
+   (dest derivation, the default when none is written, what kind of value the namespace attribute holds, whether it can
+   be None), and - per command - the attributes the argument records above ASSUME: name, kind of value, optional or
+   not.  Proofs/C18SourceParser_<command>.v prove that the table read from the source provides them.
+
+   argparse, as far as used (Lib/argparse.py of CPython 3.11; compared with the real parser objects and real parses on
+   generated command lines by harness/c18_args.py, op 13 of Run/RunC18.v):
+     - dest: the dest= keyword, else the first flag beginning with "--" (else the first flag), leading '-' stripped, '-' -> '_';
+     - default: the default= keyword, else False / True for store_true / store_false, else None;
+     - the attribute when the option is absent from the command line is that default (required=True: the parse fails
+       instead); when present: action store without nargs: type(word) (no type: the word itself, a str); with nargs '+', '*'
+       or an int >= 1: the list of the converted words; store_true / store_false: a bool; KVAppendAction with nargs=1:
+       the dict KEY -> VALUE accumulated by KVAppendAction.__call__ (linked above as kv_append / kv_parse);
+     - anything else (nargs='?', append, count, a type with store_true, a default of another kind than the option's
+       values, a KVAppendAction with a type / default / other nargs) has NO kind here: a field cannot rely on it.
+   The automatic -h/--help stores nothing.  No proofs here. *)
+From Coq Require Import String Ascii.
+
+(* an ASCII string literal as a Python str (list of code points); used for option names only *)
+Fixpoint str_of_string (s : string) : str :=
+  match s with
+  | EmptyString => []
+  | String c r => Z.of_N (N_of_ascii c) :: str_of_string r
+  end.
+
+Inductive argtype : Type := TInt | TFloat | TStr | TStrToBool.        (* type=int / float / str / str_to_bool *)
+(* a literal default / choice: None, a bool, an int, a float (the exact rational value of the double), a str, [] / list() *)
+Inductive pylit : Type := LNone | LBool (b : bool) | LInt (z : Z) | LFloat (num : Z) (den : positive) | LStr (v : str) | LEmptyList.
+Inductive argaction : Type := ActStore | ActStoreTrue | ActStoreFalse | ActAppend | ActCount | ActKVAppend.
+Inductive argnargs : Type := NInt (n : Z) | NPlus | NStar | NOpt.
+(* one parser.add_argument(...) call, as written: absent keywords are None / false / ActStore; o_dest is the dest the READER
+   derived (proved equal to opt_dest below for every table) *)
+Record argopt := mk_argopt {
+  o_flags : list str; o_dest_kw : option str; o_dest : str; o_type : option argtype; o_default : option pylit;
+  o_required : bool; o_action : argaction; o_nargs : option argnargs; o_choices : option (list pylit) }.
+
+(* ---------- argparse's reading of one declaration ---------- *)
+Definition is_long_flag (f : str) : bool := match f with 45 :: 45 :: _ => true | _ => false end.
+Fixpoint lstrip_dash (f : str) : str := match f with 45 :: r => lstrip_dash r | _ => f end.
+Definition dash_to_underscore (f : str) : str := map (fun c => if c =? 45 then 95 else c) f.
+Definition derived_dest (flags : list str) : str :=
+  dash_to_underscore (lstrip_dash (match filter is_long_flag flags with l :: _ => l | [] => hd [] flags end)).
+Definition opt_dest (o : argopt) : str := match o_dest_kw o with Some d => d | None => derived_dest (o_flags o) end.
+
+Definition opt_default (o : argopt) : pylit :=
+  match o_default o with
+  | Some d => d
+  | None => match o_action o with ActStoreTrue => LBool false | ActStoreFalse => LBool true | _ => LNone end
+  end.
+
+(* the kind of value a namespace attribute holds *)
+Inductive nskind : Type := KInt | KFloat | KStr | KBool | KList (elem : nskind) | KKV.      (* KKV: dict str -> str *)
+Fixpoint nskind_eqb (a b : nskind) : bool :=
+  match a, b with
+  | KInt, KInt | KFloat, KFloat | KStr, KStr | KBool, KBool | KKV, KKV => true
+  | KList x, KList y => nskind_eqb x y
+  | _, _ => false
+  end.
+Definition type_kind (t : option argtype) : nskind :=
+  match t with None => KStr | Some TStr => KStr | Some TInt => KInt | Some TFloat => KFloat | Some TStrToBool => KBool end.
+(* a default of the kind of the option's values (None fits everything: whether it can be seen is opt_may_be_none) *)
+Definition lit_fits (d : pylit) (k : nskind) : bool :=
+  match d, k with
+  | LNone, _ => true
+  | LBool _, KBool => true
+  | LInt _, KInt => true
+  | LFloat _ _, KFloat => true
+  | LStr _, KStr => true
+  | LEmptyList, KList _ => true
+  | _, _ => false
+  end.
+(* what the attribute holds when the option IS given *)
+Definition opt_given_kind (o : argopt) : option nskind :=
+  match o_action o, o_nargs o with
+  | ActStore, None => Some (type_kind (o_type o))
+  | ActStore, Some NPlus => Some (KList (type_kind (o_type o)))
+  | ActStore, Some NStar => Some (KList (type_kind (o_type o)))
+  | ActStore, Some (NInt n) => if 1 <=? n then Some (KList (type_kind (o_type o))) else None
+  | ActStoreTrue, None => if is_none (o_type o) then Some KBool else None
+  | ActStoreFalse, None => if is_none (o_type o) then Some KBool else None
+  | ActKVAppend, Some (NInt 1) => if is_none (o_type o) && is_none (o_default o) then Some KKV else None
+  | _, _ => None
+  end.
+(* ... and in every case (given or not): the default must be of that kind too *)
+Definition opt_kind (o : argopt) : option nskind :=
+  match opt_given_kind o with
+  | Some k => if lit_fits (opt_default o) k then Some k else None
+  | None => None
+  end.
+Definition is_lnone (d : pylit) : bool := match d with LNone => true | _ => false end.
+(* the attribute is None exactly when the option may be left out and its default is None *)
+Definition opt_may_be_none (o : argopt) : bool := negb (o_required o) && is_lnone (opt_default o).
+
+(* ---------- what an argument record assumes of the namespace ---------- *)
+Record nsfield := mk_nsfield { f_name : str; f_kind : nskind; f_optional : bool }.
+Definition fld (name : string) (k : nskind) (optional : bool) : nsfield := mk_nsfield (str_of_string name) k optional.
+Definition opts_with_dest (tbl : list argopt) (d : str) : list argopt := filter (fun o => str_eqb (o_dest o) d) tbl.
+(* the attribute is the dest of EXACTLY ONE declared option, which stores values of the assumed kind, and is None-able
+   exactly when the record says `option` *)
+Definition declares (tbl : list argopt) (f : nsfield) : Prop :=
+  exists o, opts_with_dest tbl (f_name f) = [o] /\ opt_kind o = Some (f_kind f) /\ opt_may_be_none o = f_optional f.
+
+(* log_config.configure_logging(args) reads args.verbose *)
+Definition logging_fields : list nsfield := [fld "verbose" KBool false].
+(* cs_args (paths are str; cs_seed through get_prng_from_seed_argument) + cs_ns: --scorer, --scorer-param *)
+Definition cs_fields : list nsfield :=
+  [fld "data" KStr false; fld "thetas" (KList KStr) false; fld "distance_matrix" (KList KStr) false; fld "n_chunks" KInt false;
+   fld "chunk_index" KInt false; fld "batch_plate_ids" (KList KInt) false; fld "output" KStr false; fld "seed" KInt false;
+   fld "progress" KBool false; fld "scorer" KStr false; fld "scorer_param" KKV true].
+(* sn_args (sn_policy : option cname) + sn_ns: --policy-param *)
+Definition sn_fields : list nsfield :=
+  [fld "data" KStr false; fld "scores" (KList KStr) false; fld "policy" KStr true; fld "output" KStr false; fld "seed" KInt false;
+   fld "batch_plate_id" (KList KInt) false; fld "policy_param" KKV true].
+(* tm_args + tm_ns: --model, --model-param *)
+Definition tm_fields : list nsfield :=
+  [fld "data" KStr false; fld "output" KStr false; fld "n_samples" KInt false; fld "n_burnin" KInt false; fld "thin" KInt false;
+   fld "n_chains" KInt false; fld "chain_index" KInt false; fld "seed" KInt false; fld "progress" KBool false;
+   fld "model" KStr false; fld "model_param" KKV true].
+(* rp_args *)
+Definition rp_fields : list nsfield := [fld "screen" KStr false; fld "output" KStr false; fld "plate_id" (KList KInt) false].
+(* pr_args (three optional class names; the float --holdout-fraction) + pr_ns: the three --*-param dicts *)
+Definition pr_fields : list nsfield :=
+  [fld "data" KStr false; fld "training_output" KStr false; fld "test_output" KStr false;
+   fld "initial_plate_generator" KStr true; fld "plate_generator" KStr true; fld "plate_smoother" KStr true;
+   fld "holdout_fraction" KFloat false; fld "seed" KInt false;
+   fld "initial_plate_generator_param" KKV true; fld "plate_generator_param" KKV true; fld "plate_smoother_param" KKV true].
+(* em_args *)
+Definition em_fields : list nsfield := [fld "screen" KStr false; fld "output" KStr false].
+(* cd_args + what calculate_distance_matrix.get_args() (not translated) reads: --distance-metric, --distance-metric-param *)
+Definition cd_fields : list nsfield :=
+  [fld "data" KStr false; fld "thetas" (KList KStr) false; fld "n_chunks" KInt false; fld "chunk_index" KInt false;
+   fld "output" KStr false; fld "progress" KBool false; fld "distance_metric" KStr false; fld "distance_metric_param" KKV true].
+(* ev_args *)
+Definition ev_fields : list nsfield := [fld "screen" KStr false; fld "thetas" (KList KStr) false; fld "output" KStr false].
+(* analyze_model_evaluation.main (not translated) reads these four *)
+Definition am_fields : list nsfield :=
+  [fld "model_evaluation" KStr false; fld "screen" KStr false; fld "thetas" (KList KStr) false; fld "output_dir" KStr false].
+
+(* ---------- properties of a table as a whole ---------- *)
+(* the reader's dest is argparse's derivation *)
+Definition dests_derived (tbl : list argopt) : Prop := forall o, In o tbl -> o_dest o = opt_dest o.
+(* no two options share a dest or a flag *)
+Definition dests_distinct (tbl : list argopt) : Prop := NoDup (map o_dest tbl) /\ NoDup (List.concat (map o_flags tbl)).
+(* the randomised commands: --seed is the only option stored at `seed`, an int option whose default is a non-negative int
+   literal - so get_prng_from_seed_argument(args) never sees None, and the default seed is one SeedSequence accepts *)
+Definition s_seed : str := str_of_string "seed".
+Definition s_seed_flag : str := str_of_string "--seed".
+Definition seed_declared (tbl : list argopt) : Prop :=
+  exists o z, opts_with_dest tbl s_seed = [o] /\ In s_seed_flag (o_flags o) /\ opt_kind o = Some KInt
+              /\ opt_default o = LInt z /\ 0 <= z.
+(* the chunk / chain coordinates: an option carrying one of these flags is an int option that is never None, stored at the
+   attribute of that name *)
+Definition coordinate_flags : list (str * str) :=
+  [(str_of_string "--n-chunks", str_of_string "n_chunks"); (str_of_string "--chunk-index", str_of_string "chunk_index");
+   (str_of_string "--n-chains", str_of_string "n_chains"); (str_of_string "--chain-index", str_of_string "chain_index")].
+Definition coordinates_int (tbl : list argopt) : Prop :=
+  forall fd o, In fd coordinate_flags -> In o tbl -> In (fst fd) (o_flags o) ->
+               o_dest o = snd fd /\ opt_kind o = Some KInt /\ opt_may_be_none o = false.
+(* every option with a flag ending in "-param" accumulates KEY=VALUE words through KVAppendAction (nargs=1, no type, no default) *)
+Definition str_suffix (suf f : str) : bool := str_prefix (rev suf) (rev f).
+Definition s_param_suffix : str := str_of_string "-param".
+Definition is_param_option (o : argopt) : bool := existsb (str_suffix s_param_suffix) (o_flags o).
+Definition params_kv (tbl : list argopt) : Prop :=
+  forall o, In o tbl -> is_param_option o = true ->
+            o_action o = ActKVAppend /\ o_nargs o = Some (NInt 1) /\ opt_kind o = Some KKV /\ opt_may_be_none o = true.
+(* prepare_retrospective_simulation: --holdout-fraction is the only option stored at `holdout_fraction`, a float option whose
+   default is a float literal in [0, 1] (a fraction of the experiments) *)
+Definition s_holdout_fraction : str := str_of_string "holdout_fraction".
+Definition fraction_declared (tbl : list argopt) : Prop :=
+  exists o n d, opts_with_dest tbl s_holdout_fraction = [o] /\ opt_kind o = Some KFloat /\ opt_may_be_none o = false
+                /\ opt_default o = LFloat n d /\ 0 <= n <= Zpos d.
